@@ -24,21 +24,21 @@ SECS = {"utmp": {1: T0 + 10, 2: T0 + 20, 3: T0 + 30}, "lastlog": {1: T0 + 10, 2:
         "acct": {1: T0 + 10, 2: T0 + 20, 3: 2**31 + 5}}
 
 
-def rec_bytes(i, t, usec=0, layout="utmp"):
+def rec_bytes(i, t, usec=0, layout="utmp", null=b"\0"):
     if layout == "utmp":
         if t == 0:
-            return b"\0" * gen.UTMP_SZ
+            return null * gen.UTMP_SZ
         return gen.utmp_record(7, 1000 + i, b"pts/%d" % i, b"t%d" % (i % 100), b"user%d" % i, b"host%d.example" % i,
                                SECS["utmp"].get(t, T0 + 10 * t), usec, session=500 + i)
     if layout == "acct":
         if t == 0:
-            return b"\0" * 64
+            return null * 64
         comm = (b"cmd%d" % i)[:16]
         return struct.pack("<BBHIIIIIIf8H", 0x02, 3, 0, 0, 1000 + i, 2000 + i, 3000 + i, 1, SECS["acct"].get(t, T0 + 10 * t), 1.5,
                            *([0] * 8)) + comm + b"\0" * (16 - len(comm))
     if layout == "lastlog":
         if t == 0:
-            return b"\0" * 292
+            return null * 292
         line, host = b"pts/%d" % i, b"host%d.example" % i
         return struct.pack("<i", SECS["lastlog"].get(t, T0 + 10 * t)) + line + b"\0" * (32 - len(line)) + host + b"\0" * (256 - len(host))
     raise ValueError(layout)
@@ -142,7 +142,9 @@ def run(pid, tier, seed):
                 continue
             layout = ("utmp", "acct", "lastlog")[k % 3]
             us = (lambda t: 7 if (t == 2 and layout == "utmp") else 0)
-            blob = b"".join(rec_bytes(i + 1, t, usec=us(t), layout=layout) for i, t in enumerate(recs))
+            # a null record is a slot of all-zero bytes or of all-0xFF bytes (both are skipped by the reader)
+            nulls = [rng.choice([b"\0", b"\xff"]) for _ in recs]
+            blob = b"".join(rec_bytes(i + 1, t, usec=us(t), layout=layout, null=nulls[i]) for i, t in enumerate(recs))
             cont = rng.choice(conts)
             name = FILENAME[layout]
             if cont == "plain":
@@ -158,10 +160,12 @@ def run(pid, tier, seed):
             else:
                 files, arg = {"a.tar": gen.tar_bytes([(name, blob)])}, "a.tar"
             argv = ["--color", "never", "--blocksz", str(rng.choice([64, 100, 383, 384, 385, 768, 4096, 65536]))]
+            # the window's instants spelled zone-less (-t +00:00) or with a numeric offset written on the values
+            woff = (None, None, 60, -480, 330)[k % 5]
             if A != 0:
-                argv += ["-a", cli(A, us(A), layout)]
+                argv += ["-a", gen.fmt_ts(SECS[layout][A], us(A) * 1000, woff, 6)]
             if B != 99:
-                argv += ["-b", cli(B, us(B), layout)]
+                argv += ["-b", gen.fmt_ts(SECS[layout][B], us(B) * 1000, woff, 6)]
             cases.append((Case(files, argv + [arg], None, note={"recs": recs, "A": A, "B": B, "emit": emit,
                                                                "container": cont, "layout": layout}), recs, emit))
 
@@ -217,5 +221,5 @@ def run(pid, tier, seed):
         rep.assumptions = ["Linux x86_64 struct utmp (384 bytes), struct acct_v3 (64 bytes, unsigned 32-bit time incl. a value beyond "
                            "2^31) and struct lastlog (292 bytes) synthesised from the C layouts; BSD layouts are exercised only through "
                            "the repository's sample files in C05/C07",
-                           "null record = all-zero bytes", "rendering of a record line taken from the unchanged tree"]
+                           "null record = a slot of all-zero or all-0xFF bytes", "rendering of a record line taken from the unchanged tree"]
     return rep.finish()
